@@ -262,3 +262,17 @@ def check(ctx):
             if "ogre_alloc" in key or "instances" in key: return super().ob(rule, key, ok, site, detail, nontrivial, undecided)
             return ok
     importlib.import_module("props.C01").check_setters_consumed(OnlyAlloc(ctx, "R14.9"), "R01.9")
+
+
+
+def check_unique_to_shared(ctx, rule):
+    """one owner per slot across the OgreUnique -> OgreArc conversion (R14.5 into_ogre_arc suppresses the unique handle's drop; R14.8 `From<OgreUnique> for OgreArc` goes
+    through it): imported by every property that stands on 'a pool slot has exactly one owner' (C01, C02, C05, C08, C13, C16)"""
+    sub = util.fresh_ctx(ctx, "C14")
+    util.guarded(ctx, check, sub)
+    n = 0
+    for o in sub.obs:
+        if o["rule"] in ("R14.5", "R14.8") and ("into_ogre_arc" in o["key"] or "From::from" in o["key"]):
+            n += 1
+            ctx.ob(rule, o["key"], o["ok"], o["site"], o["detail"], o["nontrivial"])
+    return n
